@@ -2,6 +2,8 @@
 // "history" index = algorithm id.
 #include <amc/memory.hpp>
 
+#include <limits>
+
 #include <iterator>
 #include <memory>
 #include <new>
@@ -565,6 +567,48 @@ struct AlgoEngine : EngineBase {
     g_live_harness = 0;
     return pts;
   }
+  // The count argument of the _n algorithms in the types the containers use for it (narrow unsigned and signed size types): the returned
+  // iterators must be first + count and dest + count, and exactly count elements must arrive, as for std::uninitialized_copy_n / _move_n.
+  // Trivially copyable elements (no ledger needed): the block-copy implementations are the ones that compute with the count.
+  template <class T, class C>
+  void count_cells(const char *tname, const char *cname, const std::vector<long> &counts) {
+    for (size_t ci = 0; ci < counts.size() && !g_cut; ++ci) {
+      const long n = counts[ci];
+      if (n > static_cast<long>(std::numeric_limits<C>::max())) continue;
+      for (int fam = 0; fam < 3 && !g_cut; ++fam) {
+        { MonScope m; g_cur_sig = std::string(fam == 0 ? "uninitialized_copy_n" : fam == 1 ? "uninitialized_move_n" : "uninitialized_relocate_n") + "/" + tname + "/count type " + cname; g_cur_desc = fmt("count=%ld", n); ++cells[g_cur_sig]; }
+        T *src, *dst;
+        { MonScope m; src = static_cast<T *>(malloc(sizeof(T) * static_cast<size_t>(n + 2))); dst = static_cast<T *>(malloc(sizeof(T) * static_cast<size_t>(n + 2))); for (long i = 0; i < n + 2; ++i) { new (src + i) T(static_cast<T>(i % 97 + 1)); new (dst + i) T(static_cast<T>(0)); } }
+        const C cnt = static_cast<C>(n);
+        T *rin = nullptr, *rd = nullptr;
+        bool has_in = false;
+        if (fam == 0) window([&] { rd = amc::uninitialized_copy_n(src, cnt, dst); });
+        else if (fam == 1) window([&] { std::pair<T *, T *> r = amc::uninitialized_move_n(src, cnt, dst); rin = r.first; rd = r.second; has_in = true; });
+        else window([&] { std::pair<T *, T *> r = amc::uninitialized_relocate_n(src, cnt, dst); rin = r.first; rd = r.second; has_in = true; });
+        MonScope m;
+        if (threw) violation("C15", "algo.unexpected_exception", "an _n algorithm over trivially copyable elements threw");
+        else {
+          if (rd != dst + n || (has_in && rin != src + n)) violation("C15", "algo.returned_iterator", fmt("%s of %ld %s elements with a count of type %s returned {first+%ld, dest+%ld}", fam == 0 ? "uninitialized_copy_n" : fam == 1 ? "uninitialized_move_n" : "uninitialized_relocate_n", n, tname, cname, has_in ? static_cast<long>(rin - src) : n, static_cast<long>(rd - dst)));
+          for (long i = 0; i < n + 2 && !g_cut; ++i) { T want = i < n ? static_cast<T>(i % 97 + 1) : static_cast<T>(0); if (!(dst[i] == want)) { violation("C15", "algo.values", fmt("element %ld of %ld differs after an _n algorithm with a count of type %s", i, n, cname)); break; } }
+        }
+        free(src);
+        free(dst);
+      }
+    }
+  }
+  void count_type_cells() {
+    std::vector<long> c8 = {0, 1, 2, 126, 127}, u8 = {0, 1, 127, 128, 129, 200, 255}, c16 = {0, 5, 32767}, u16 = {0, 5, 32767, 32768, 40000, 65535}, big = {0, 3, 300, 70000};
+    count_cells<int, signed char>("int", "signed char", c8);
+    count_cells<int, unsigned char>("int", "unsigned char", u8);
+    count_cells<int, int16_t>("int", "int16_t", c16);
+    count_cells<int, uint16_t>("int", "uint16_t", u16);
+    count_cells<int, uint32_t>("int", "uint32_t", big);
+    count_cells<int, uint64_t>("int", "uint64_t", big);
+    count_cells<int, long>("int", "long", big);
+    count_cells<unsigned char, unsigned char>("unsigned char", "unsigned char", u8);
+    count_cells<double, uint16_t>("double", "uint16_t", u16);
+    count_cells<double, unsigned char>("double", "unsigned char", u8);
+  }
   template <class T>
   void construct_cells() {
     for (int form = 0; form < 3 && !g_cut; ++form) {
@@ -680,7 +724,7 @@ struct AlgoEngine : EngineBase {
       case A_UCOPY: case A_UCOPY_N: { int f = algo - A_UCOPY; range_family<int>(algo, f); range_family<TC4>(algo, f); range_family<PMem>(algo, f); range_family<TR>(algo, f); range_family<NTR>(algo, f); range_family<NTR_TM>(algo, f); range_family<NTR_NCTM>(algo, f); hetero_family<NTR, NTR_MO>(algo, f); hetero_family<TR, NTR>(algo, f); break; }
       case A_UMOVE: case A_UMOVE_N: { int f = 2 + algo - A_UMOVE; range_family<int>(algo, f); range_family<TC4>(algo, f); range_family<TR>(algo, f); range_family<NTR>(algo, f); range_family<NTR_TM>(algo, f); range_family<NTR_NCTM>(algo, f); hetero_family<NTR, NTR_MO>(algo, f); hetero_family<TR, NTR>(algo, f); break; }
       case A_UDEFAULT: case A_UDEFAULT_N: case A_UVALUE: case A_UVALUE_N: { int f = algo - A_UDEFAULT; ctor_family<int>(algo, f); ctor_family<TC4>(algo, f); ctor_family<PMem>(algo, f); ctor_family<TDCA>(algo, f); ctor_family<NTDef>(algo, f); ctor_family<TR>(algo, f); ctor_family<NTR>(algo, f); break; }
-      case A_URELOC: case A_URELOC_N: { int f = 4 + algo - A_URELOC; range_family<int>(algo, f); range_family<TC4>(algo, f); range_family<TR>(algo, f); range_family<NTR>(algo, f); range_family<NTR_TM>(algo, f); range_family<NTR_NCTM>(algo, f); break; }
+      case A_URELOC: case A_URELOC_N: { int f = 4 + algo - A_URELOC; if (algo == A_URELOC_N) count_type_cells(); range_family<int>(algo, f); range_family<TC4>(algo, f); range_family<TR>(algo, f); range_family<NTR>(algo, f); range_family<NTR_TM>(algo, f); range_family<NTR_NCTM>(algo, f); break; }
       case A_RELOC_AT: relocate_at_cells<int>(); relocate_at_cells<TC4>(); relocate_at_cells<TR>(); relocate_at_cells<NTR>(); relocate_at_cells<NTR_TM>(); relocate_at_cells<NTR_NCTM>(); break;
       case A_OVERLAP: overlap_cells<int>(); overlap_cells<TC4>(); overlap_cells<TR>(); break;
       case A_DESTROY_AT_ARRAY: destroy_array_cells<int>(); destroy_array_cells<TR>(); destroy_array_cells<NTR>(); break;
